@@ -149,7 +149,7 @@ func (r *c09Relay) bidAs(defect string, value int64) *builderspec.VersionedSigne
 	}
 	msg := &builderbellatrix.BuilderBid{
 		Header: &bellatrix.ExecutionPayloadHeader{FeeRecipient: fee, Timestamp: ts, BlockHash: phase0.Hash32{r.hdr}, ParentHash: phase0.Hash32{9}, ExtraData: []byte{}},
-		Value:  uint256.NewInt(uint64(value)),
+		Value:  c09Wei256(value),
 		Pubkey: c09Builder(r.bldr),
 	}
 	mr, err := msg.HashTreeRoot()
@@ -166,6 +166,37 @@ func (r *c09Relay) bidAs(defect string, value int64) *builderspec.VersionedSigne
 	b := &builderspec.VersionedSignedBuilderBid{Version: spec.DataVersionBellatrix, Bellatrix: &builderbellatrix.SignedBuilderBid{Message: msg, Signature: sig}}
 	c09Cache[key] = b
 	return b
+}
+
+// Values are whole ETH in the harness and Wei towards vouch (20 ETH is above 2^64 Wei).
+var c09EthWei = new(big.Int).Exp(big.NewInt(10), big.NewInt(18), nil)
+
+func c09Wei(eth int64) *big.Int { return new(big.Int).Mul(big.NewInt(eth), c09EthWei) }
+
+func c09Wei256(eth int64) *uint256.Int {
+	v, overflow := uint256.FromBig(c09Wei(eth))
+	if overflow {
+		panic("value overflow")
+	}
+	return v
+}
+
+// c09Centi converts a Wei amount produced by vouch to hundredths of an ETH (-1 if it is no whole number of them).
+func c09Centi(wei *big.Int) int64 {
+	q, r := new(big.Int).QuoRem(wei, new(big.Int).Exp(big.NewInt(10), big.NewInt(16), nil), new(big.Int))
+	if r.Sign() != 0 {
+		return -1
+	}
+	return q.Int64()
+}
+
+// c09Eth converts a Wei amount produced by vouch back to ETH; amounts that are no whole ETH come back as -1.
+func c09Eth(wei *big.Int) int64 {
+	q, r := new(big.Int).QuoRem(wei, c09EthWei, new(big.Int))
+	if r.Sign() != 0 {
+		return -1
+	}
+	return q.Int64()
 }
 
 func (r *c09Relay) Name() string    { return fmt.Sprintf("relay%d", r.idx) }
@@ -248,9 +279,9 @@ func c09BuilderConfigs(kind string) map[phase0.BLSPubKey]*blockrelay.BuilderConf
 	switch kind {
 	case "none":
 	case "offset+5":
-		m[x] = &blockrelay.BuilderConfig{Category: "priority", Offset: big.NewInt(5)}
+		m[x] = &blockrelay.BuilderConfig{Category: "priority", Offset: c09Wei(5)}
 	case "offset-5":
-		m[x] = &blockrelay.BuilderConfig{Category: "standard", Offset: big.NewInt(-5)}
+		m[x] = &blockrelay.BuilderConfig{Category: "standard", Offset: c09Wei(-5)}
 	case "factor0":
 		m[x] = &blockrelay.BuilderConfig{Category: "excluded", Factor: big.NewInt(0)}
 	case "factor50":
@@ -262,14 +293,15 @@ func c09BuilderConfigs(kind string) map[phase0.BLSPubKey]*blockrelay.BuilderConf
 }
 
 // score is the documented scoring: (value + offset) * factor / 100.
+// c09Score is the reference score of a bid of the given value (whole ETH) in hundredths of an ETH.
 func c09Score(kind string, bldr byte, value int64) int64 {
-	s := value
+	s := value * 100
 	if bldr == 'X' {
 		switch kind {
 		case "offset+5":
-			s += 5
+			s += 500
 		case "offset-5":
-			s -= 5
+			s -= 500
 		case "factor0":
 			s = 0
 		case "factor50":
@@ -284,7 +316,7 @@ func c09Score(kind string, bldr byte, value int64) int64 {
 func c09ProposerConfig(e *c09Env) *beaconblockproposer.ProposerConfig {
 	pc := &beaconblockproposer.ProposerConfig{FeeRecipient: bellatrix.ExecutionAddress{0xfe}}
 	for _, r := range e.relays {
-		pc.Relays = append(pc.Relays, &beaconblockproposer.RelayConfig{Address: r.Address(), FeeRecipient: bellatrix.ExecutionAddress{0xfe}, GasLimit: 30000000, MinValue: decimal.NewFromInt(c09Min)})
+		pc.Relays = append(pc.Relays, &beaconblockproposer.RelayConfig{Address: r.Address(), FeeRecipient: bellatrix.ExecutionAddress{0xfe}, GasLimit: 30000000, MinValue: decimal.NewFromBigInt(c09Wei(c09Min), 0)})
 	}
 	return pc
 }
@@ -486,7 +518,7 @@ func c09Units(tier string) []hx.Unit {
 					b, s.err = svc.BuilderBid(ctx, c09Slot, phase0.Hash32{s.parent}, v1.pubkey())
 					if b != nil {
 						if val, err := b.Value(); err == nil {
-							s.val = val.ToBig().Int64()
+							s.val = c09Eth(val.ToBig())
 						}
 					}
 				}
@@ -549,7 +581,7 @@ func c09NewBlockRelay(ctx context.Context, e *c09Env, st *c09Strat, ck string, a
 	for _, r := range e.relays {
 		rel = append(rel, `"`+r.Address()+`":{}`)
 	}
-	doc := `{"version":2,"fee_recipient":"` + feeA + `","min_value":"0.000000000000000005","relays":{` + strings.Join(rel, ",") + `}}`
+	doc := `{"version":2,"fee_recipient":"` + feeA + `","min_value":"5","relays":{` + strings.Join(rel, ",") + `}}`
 	md := &c09Majordomo{doc: doc}
 	svc, err := standardblockrelay.New(ctx,
 		standardblockrelay.WithLogLevel(zerolog.Disabled), standardblockrelay.WithMonitor(&nullmetrics.Service{}), standardblockrelay.WithMajordomo(md),
@@ -584,7 +616,7 @@ func c09Check(st *c09Strat, e *c09Env, r *mc.Result, cache bool) mc.Verdict {
 	v := mc.Verdict{}
 	win := "none"
 	if e.res != nil && e.res.WinningParticipation != nil {
-		win = e.res.WinningParticipation.Score.String()
+		win = fmt.Sprint(c09Centi(e.res.WinningParticipation.Score))
 	}
 	v.Outcome = fmt.Sprintf("%s winner=%s@%d", st.name, win, e.t1/int64(time.Second))
 	v.Sample = fmt.Sprintf("%s relays=[%s] builderX=%s -> %s", st.name, strings.Join(desc, " "), e.cfgKind, v.Outcome)
@@ -654,7 +686,7 @@ func c09Check(st *c09Strat, e *c09Env, r *mc.Result, cache bool) mc.Verdict {
 			return fail("providers-without-winner", "relays are listed for unblinding although there is no winner")
 		}
 	} else {
-		ws := wp.Score.Int64()
+		ws := c09Centi(wp.Score)
 		if ws <= 0 {
 			return fail("zero-score-winner", "a bid with zero (or negative) score won")
 		}
@@ -674,7 +706,7 @@ func c09Check(st *c09Strat, e *c09Env, r *mc.Result, cache bool) mc.Verdict {
 		okBid := false
 		for i := range e.given {
 			for _, g := range e.given[i] {
-				if g.eligible && c09Builder(g.bldr) == wb && uint64(g.value) == wv.Uint64() && c09Score(e.cfgKind, g.bldr, g.value) == ws {
+				if g.eligible && c09Builder(g.bldr) == wb && g.value == c09Eth(wv.ToBig()) && c09Score(e.cfgKind, g.bldr, g.value) == ws {
 					okBid = true
 				}
 			}
